@@ -572,7 +572,13 @@ class SpectralDensity(DFunction, UnitsManaged):
         """
         import scipy.interpolate as interp
 
-        integr = self.data/self.axis.data
+        with numpy.errstate(divide="ignore", invalid="ignore"):
+            integr = self.data/self.axis.data
+        # if the frequency axis contains exactly zero, J(w)/w is 0/0 there;
+        # it is a smooth even function: take the mean of its neighbours
+        for iz in numpy.where(self.axis.data == 0.0)[0]:
+            if 0 < iz < len(integr)-1:
+                integr[iz] = 0.5*(integr[iz-1]+integr[iz+1])
         uvspl = interp.UnivariateSpline(self.axis.data, integr, s=0)
         integ = uvspl.integral(0.0, self.axis.max)/numpy.pi
 
